@@ -105,6 +105,55 @@ def unm_case(o, config, prot="", callable_kind=""):
     return p, p.block(ss)
 
 
+STR_EVENTS = ["__add", "__sub", "__mul", "__div", "__mod", "__pow", "__unm", "__concat", "__lt", "__le", "__eq", "__index", "__call", "__len"]
+
+
+def strmeta_case(ev, hkind="function"):
+    """a handler installed in the string metatable: Lua 5.1 tries the built-in meaning first (numeric strings are
+    numbers in arithmetic, strings concatenate/compare/have a length by themselves) and only then looks for a handler"""
+    p = Prog()
+    h = p.func(["a", "b"], p.block([p.emit([p.str("h"), p.id("a"), p.id("b"), p.call(p.id("select"), [p.str("#"), p.dots()])]), p.ret([p.str("R"), p.str("second")])]), va=True, ud=True)
+    ss = [p.local(["smt"], [p.call(p.id("getmetatable"), [p.str("")])]), p.local(["h"], [h]), p.local(["plain"], [p.table([])]),
+          p.emit([p.str("before"), p.call(p.id("type"), [p.id("smt")]), p.call(p.id("rawequal"), [p.field(p.id("smt"), "__index"), p.id("string")])])]
+    if hkind == "callable":
+        ss.append(p.local(["hf"], [p.id("h")]))
+        ss.append(p.assign([p.id("h")], [p.call(p.id("setmetatable"), [p.table([]), p.table([("k", _name(p, "__call"), p.func(["self"], p.block([p.ret([p.call(p.id("hf"), [p.dots()])])]), va=True, ud=True))])])]))
+    ss.append(p.assign([p.field(p.id("smt"), ev)], [p.id("h")]))
+    ss.append(p.local(["n1", "n2", "w1", "w2", "k"], [p.str("10"), p.str(" 0x10 "), p.str("abc"), p.str("zz"), p.num(3)]))
+    def probe(tag, e):
+        ss.append(p.emit([p.str(tag), p.call(p.id("pcall"), [p.func([], p.block([p.ret([e])]))])]))
+    V = {"n1": lambda: p.id("n1"), "n2": lambda: p.id("n2"), "w1": lambda: p.id("w1"), "w2": lambda: p.id("w2"), "k": lambda: p.id("k"),
+         "lit": lambda: p.str("7"), "wlit": lambda: p.str("w"), "plain": lambda: p.id("plain"), "num": lambda: p.num(2)}
+    if ev in ("__add", "__sub", "__mul", "__div", "__mod", "__pow"):
+        op = {v: k for k, v in EVENT.items() if k in ARITH}[ev]
+        for l, r in [("n1", "k"), ("k", "n1"), ("n1", "n2"), ("lit", "num"), ("w1", "k"), ("k", "w1"), ("w1", "w2"), ("n1", "w1"), ("wlit", "lit"), ("w1", "plain"), ("plain", "n1")]:
+            probe("%s %s %s" % (l, op, r), p.bin(op, V[l](), V[r]()))
+    elif ev == "__unm":
+        for o in ("n1", "n2", "lit", "w1", "wlit", "k"):
+            probe("-" + o, p.un("-", V[o]()))
+    elif ev == "__concat":
+        for l, r in [("w1", "w2"), ("w1", "k"), ("k", "w1"), ("w1", "plain"), ("plain", "w1"), ("k", "plain"), ("wlit", "lit")]:
+            probe("%s .. %s" % (l, r), p.bin("..", V[l](), V[r]()))
+    elif ev in ("__lt", "__le", "__eq"):
+        for op in (["<", ">"] if ev == "__lt" else ["<=", ">="] if ev == "__le" else ["==", "~="]):
+            for l, r in [("w1", "w2"), ("w1", "w1"), ("n1", "k"), ("k", "n1"), ("w1", "plain"), ("n1", "lit")]:
+                probe("%s %s %s" % (l, op, r), p.bin(op, V[l](), V[r]()))
+    elif ev == "__index":
+        probe("w1.len", p.field(p.id("w1"), "len"))
+        probe("w1[1]", p.index(p.id("w1"), p.num(1)))
+        probe("w1:upper()", p.method(p.id("w1"), "upper", []))
+        probe("lit.x", p.field(p.paren(p.str("lit")), "x"))
+    elif ev == "__call":
+        probe("w1(1,2)", p.call(p.id("w1"), [p.num(1), p.num(2)]))
+        probe("('lit')()", p.call(p.paren(p.str("lit")), []))
+        probe("w1:len()", p.method(p.id("w1"), "len", []))
+    elif ev == "__len":
+        probe("#w1", p.un("#", p.id("w1")))
+        probe("#lit", p.un("#", p.str("lit")))
+    ss.append(p.emit([p.str("after"), p.call(p.id("rawequal"), [p.call(p.id("getmetatable"), [p.str("x")]), p.id("smt")])]))
+    return p, p.block(ss)
+
+
 def index_case(rng):
     """__index / __newindex chains through tables and functions; raw access bypasses"""
     p = Prog()
